@@ -149,6 +149,11 @@ func renderHeader(form, t string, variant int) (present bool, value string) {
 	panic("form " + form)
 }
 
+type silentLogger struct{}
+
+func (silentLogger) Printf(string, ...interface{}) {}
+func (silentLogger) Debugf(string, ...interface{}) {}
+
 // renderDefault spells Runtime.DefaultMediaType for the abstract (type, form).
 func renderDefault(t, form string) string {
 	switch form {
@@ -170,6 +175,10 @@ func execPick(c *drv.Ctx, d M) bool {
 	opClient, opCtx, rtCtx := drv.Bool(d["op_client"]), drv.Str(d["op_ctx"]), drv.Str(d["rt_ctx"])
 	present, value := renderHeader(form, t, drv.Int(d["variant"]))
 	body := []byte(strings.Repeat("payload-", drv.Int(d["body_len"])))
+	if n, ok := d["body_bytes"]; ok { // exact size (large bodies)
+		body = bytes.Repeat([]byte("0123456789abcdef"), drv.Int(n)/16+1)[:drv.Int(n)]
+	}
+	chunked := drv.Str(d["framing"]) == "chunked"
 
 	var mu sync.Mutex
 	var calls []M
@@ -178,9 +187,14 @@ func execPick(c *drv.Ctx, d M) bool {
 		if present {
 			h["Content-Type"] = []string{value}
 		}
-		return &http.Response{StatusCode: status, Status: fmt.Sprintf("%d %s", status, http.StatusText(status)),
+		resp := &http.Response{StatusCode: status, Status: fmt.Sprintf("%d %s", status, http.StatusText(status)),
 			Proto: "HTTP/1.1", ProtoMajor: 1, ProtoMinor: 1, Header: h, ContentLength: int64(len(body)),
 			Body: io.NopCloser(bytes.NewReader(body)), Request: req}
+		if chunked {
+			resp.ContentLength = -1
+			resp.TransferEncoding = []string{"chunked"}
+		}
+		return resp
 	}
 	rtRT := echoRT{tag: "rt", mu: &mu, calls: &calls, resp: mkResp}
 	opRT := echoRT{tag: "op", mu: &mu, calls: &calls, resp: mkResp}
@@ -201,6 +215,10 @@ func execPick(c *drv.Ctx, d M) bool {
 	}
 	defaultMT := renderDefault(drv.Str(d["default"]), drv.Str(d["default_form"]))
 	rt.DefaultMediaType = defaultMT
+	if drv.Bool(d["debug"]) {
+		rt.SetLogger(silentLogger{}) // Runtime.Debug dumps request and response through the logger
+		rt.Debug = true
+	}
 	rctx, rrel := mkRtCtx(rtCtx)
 	defer rrel()
 	rt.Context = rctx // nil for "nil"; New itself leaves context.Background()
@@ -545,6 +563,10 @@ func execute(c *drv.Ctx, d M) bool {
 		return execConc(c, d)
 	case "retain":
 		return execRetain(c, d)
+	case "opreuse":
+		return execOpReuse(c, d)
+	case "multi":
+		return execMulti(c, d)
 	case "clientlat":
 		return execClientLat(c, d)
 	}
@@ -598,7 +620,8 @@ func generate(c *drv.Ctx) {
 						c.Case(M{"kind": "pick", "registry": reg, "star": st, "default": def, "default_form": df,
 							"header": M{"form": h.form, "t": h.t}, "variant": v, "status": statuses[idx%5],
 							"op_client": idx%2 == 1, "op_ctx": opCtxKinds[(idx/2)%5], "rt_ctx": rtCtxKinds[(idx/10)%5],
-							"rt_client": []string{"transport", "withclient"}[(idx/8)%2], "body_len": idx % 7})
+							"rt_client": []string{"transport", "withclient"}[(idx/8)%2], "body_len": idx % 7,
+							"debug": (idx/3)%4 == 0 && statuses[idx%5] != 204, "framing": []string{"length", "chunked"}[(idx/5)%2]})
 						npick++
 					}
 					idx++
@@ -642,8 +665,29 @@ func generate(c *drv.Ctx) {
 		c.Case(M{"kind": "pick", "registry": reg, "star": c.Rng.Intn(2) == 0, "default": types[c.Rng.Intn(len(types))], "default_form": defForms[c.Rng.Intn(3)],
 			"header": M{"form": h.form, "t": h.t}, "variant": c.Rng.Intn(84), "status": 100 + c.Rng.Intn(500),
 			"op_client": c.Rng.Intn(2) == 0, "op_ctx": opCtxKinds[c.Rng.Intn(5)], "rt_ctx": rtCtxKinds[c.Rng.Intn(5)],
-			"rt_client": []string{"transport", "withclient"}[c.Rng.Intn(2)], "body_len": c.Rng.Intn(3000)})
+			"rt_client": []string{"transport", "withclient"}[c.Rng.Intn(2)], "body_len": c.Rng.Intn(3000),
+			"debug": false, "framing": []string{"length", "chunked"}[c.Rng.Intn(2)]})
 		npick++
+	}
+	// (3b) the reader sees the body unchanged, with and without Runtime.Debug, for bodies of 0 B .. a few MiB
+	sizes := []int{0, 1, 4096, 1<<20 - 1, 1 << 20, 1<<20 + 1, 3<<20 + 17}
+	if thorough {
+		sizes = append(sizes, 65536, 2<<20, 5<<20)
+	}
+	for _, dbg := range []bool{false, true} {
+		for _, fr := range []string{"length", "chunked"} {
+			for _, sz := range sizes {
+				for ti, t := range []string{types[0], types[1], types[3]} {
+					for _, s := range []int{200, 404} {
+						c.Case(M{"kind": "pick", "registry": []string{types[0], types[1], types[3]}, "star": false, "default": types[0],
+							"default_form": "plain", "header": M{"form": []string{"plain", "params"}[ti%2], "t": t}, "variant": 0, "status": s,
+							"op_client": s == 404, "op_ctx": "nil", "rt_ctx": "default", "rt_client": "transport", "body_len": 0,
+							"body_bytes": sz, "debug": dbg, "framing": fr})
+						npick++
+					}
+				}
+			}
+		}
 	}
 	c.Extra["pick_cases"] = npick
 
@@ -688,5 +732,7 @@ func generate(c *drv.Ctx) {
 	}
 	c.Extra["conc_cases"] = nconc
 	generateRetain(c, thorough)
+	generateOpReuse(c, thorough)
+	generateMulti(c, thorough)
 	generateClientLat(c, thorough)
 }
